@@ -105,9 +105,9 @@ CHECKS = {
 }
 
 CHECKS["C20"] = dict(
-    technique="Coq proofs about a pipeline model (slots written by independent tasks: any interleaving gives the same response; a combined section = the separate section), per-file service loops (rows of a file independent of the other files and their order) and the two front ends (MCP and CLI build the same use-case configuration; names/defaults regenerated from the Go AST); differential runs of the real CLI, the in-process MCP handlers and a -race build",
-    text="Theorems C20_interleaving, C20_combined_eq_separate, C20_unselected_empty, C20_per_file_independent, C20_order_only_permutes, C20_mcp_eq_cli (no axioms). Each run on generated projects: every section of the combined report vs the --select run; per-file complexity/dead-code/CBO/LCOM rows for every file alone, reversed order and random subsets vs the whole project (also evaluated through the Coq model Isolation.run); MCP analyze_code (full) vs CLI with the same options; -race build of the CLI under several GOMAXPROCS.",
-    note="partial: data-race freedom is tested (Go race detector), not proved; MCP transport not modelled. While the report is not yet deterministic (property C05) list order and the fields listed in UNSTABLE_KEYS are not compared. F30 (MCP ignored the [cbo] config section) repaired by a fix: commit.",
+    technique="Coq proofs about a pipeline model (slots written by independent tasks: any interleaving gives the same response; a combined section = the separate section), per-file service loops (rows of a file independent of the other files and their order) and the two front ends (MCP and CLI build the same use-case configuration; names/defaults regenerated from the Go AST); differential runs of the real CLI, the real MCP server binary (cmd/pyscn-mcp over stdio JSON-RPC, all seven tools), the in-process MCP handler hook and a -race build",
+    text="Theorems C20_interleaving, C20_combined_eq_separate, C20_unselected_empty, C20_per_file_independent, C20_order_only_permutes, C20_mcp_eq_cli (no axioms). Each run on generated projects: every section of the combined report vs the --select run; per-file complexity/dead-code/CBO/LCOM rows for every file alone, reversed order and random subsets vs the whole project (also evaluated through the Coq model Isolation.run); all seven MCP tools (analyze_code, check_complexity, detect_clones, check_coupling, find_dead_code, check_cohesion, get_health_score) called on the real pyscn-mcp server vs `pyscn analyze --json` / `pyscn check` with the same path and options (harness/c20mcp.py): projected findings (function rows with complexity and risk, dead-code findings with lines, severity and reason, CBO/LCOM4 per class with risk, clone pairs as location pairs with similarity and type, health score, grade and category scores) in the full, summary and detailed output modes; option lattice at and next to values present in the project (min/max complexity, severity, similarity threshold, min_lines, min_cbo, max_results); directory, sub-directory, single-file and relative paths; six configuration layouts (default; .pyscn.toml found from the server's directory; only from the path; PYSCN_CONFIG / --config; a file that also sets the quick-filter keys; a small min_lines/min_nodes project); per tool a missing path, a directory without Python files, a non-Python file, a non-string / absent path and invalid option values (both front ends reject, or both accept with equal findings; a crash of the server is a violation); MCP analyze_code through the in-process hook; -race build of the CLI under several GOMAXPROCS.",
+    note="partial: data-race freedom is tested (Go race detector), not proved; the MCP side is the real server driven over stdio (initialize + tools/call), equality is decided on projected findings, not on presentation. Open findings (printed as KNOWN-FINDING, each matched only when the tool's answer equals the command line run with the options the defect makes it use): F36 check_coupling ignores the [cbo] config section; F37 the single-analysis tools discover the config from the server's directory, not from the path; F38 an argument equal to the built-in default loses against the config file; F39 four tools analyse an explicitly given non-.py file that `analyze` rejects; F40 check_complexity rejects min_complexity above the file's max_complexity. While the report is not yet deterministic (property C05) list order and the fields listed in UNSTABLE_KEYS are not compared. F30 (MCP ignored the [cbo] config section) repaired by a fix: commit.",
     design="5 C20")
 
 NOT_YET = {}
